@@ -24,7 +24,7 @@ ASSUMPTIONS = [
 F32 = np.float32
 DISTS = [0.0, 0.25, float(F32(0.3)), 0.5, 0.75, 1.0]
 THR3 = [None, 0.25, 0.5]
-THR4 = [None, 0.25, 0.3, 0.5]
+THR4 = [None, 0.0, 0.25, 0.3, 0.5]       # 0.0: a threshold that is falsy but present (identical genomes only)
 
 
 def plan(tier, seed):
